@@ -44,7 +44,12 @@ pub fn gen(idx: u64, rng: &mut Rng, _tier: Tier) -> Scn {
         let (b, e): (u32, u16) = if scheme == Scheme::Raptor { (4, 8) } else { (*rng.pick(&[2u32, 3]), *rng.pick(&[4u16, 8])) };
         // some objects have many source blocks (bookkeeping of decoded-but-unwritten blocks across a join)
         let blocks = if grid { 2 } else if rng.chance(0.15) { rng.range(17, 30) } else { rng.range(1, 3) };
-        let len = (blocks as usize * b as usize * e as usize).saturating_sub(if grid { 3 } else { rng.range(0, 5) as usize });
+        let mut len = (blocks as usize * b as usize * e as usize).saturating_sub(if grid { 3 } else { rng.range(0, 5) as usize });
+        if !grid && rng.chance(0.5) {
+            // any size: symbol counts that are not a multiple of the block count, a last symbol of 1.. bytes
+            // (a receiver that starts on in-band OTI rebuilds the block structure from F, T and Z)
+            len = rng.range(1, (blocks * b as u64 + 2) * e as u64) as usize;
+        }
         let mut o = ObjectSpec::basic(len.max(1), 0xC16 + idx * 7 + i as u64, i);
         o.oti = Some(OtiSpec::new(scheme, e, b, if scheme == Scheme::NoCode { 0 } else { 1 }, inband));
         o.inband_cenc = inband;
